@@ -1,9 +1,10 @@
 /* C01: secp256k1_ecdsa_sign and secp256k1_ecdsa_sign_recoverable (API level), real sign_inner underneath
  * (retry loop closed by the loop contract of the unit table (engine/units/C01_more.py, no /repo edit)).  Every pointer argument NULL
  * or an object; context with or without a built generator table (static-context case).
- * Decided: unbuilt context / NULL argument => one illegal callback, ret 0, nothing written; failure =>
- * signature object all zero (recoverable: all 65 bytes); success => the object holds exactly the core
- * signer's (r, s[, recid]); key/message/noncedata wiring as in C01.sign_inner. */
+ * Decided: unbuilt context / NULL argument => illegal callback, ret 0; failure with legal arguments => the
+ * signature object decodes (TU's own load function) to r = s = 0 (recoverable: and recid 0) - the property's
+ * "returns 0 and an all-zero signature"; success => the object holds exactly the core signer's (r, s[, recid]);
+ * key/message/noncedata wiring as in C01.sign_inner.  Nothing is demanded about outputs on illegal use. */
 #define LOG_SIG_SIGN
 #define LOG_NONCE_FN
 #define LOG_EC_COMMIT_SECKEY
@@ -17,38 +18,36 @@
     INPUT_ARR(unsigned char, seckey, 32); INPUT_ARR(unsigned char, msg32, 32); INPUT_ARR(unsigned char, ndata, 32); \
     INPUT(_Bool, use_key); INPUT(_Bool, use_msg); INPUT(_Bool, use_sig); INPUT(_Bool, use_ndata); INPUT(int, fp_mode); INPUT(int, built); INPUT(size_t, k); \
     secp256k1_nonce_function fp; int ret, key_valid, legal; wide n = N_(), half = (N_() - 1) >> 1, kv, mv; \
-    __CPROVER_assume(fp_mode >= 0 && fp_mode <= 2 && k < 65); \
+    __CPROVER_assume(fp_mode >= 0 && fp_mode <= 2 && k < 32); \
     fp = fp_mode == 0 ? NULL : fp_mode == 1 ? secp256k1_nonce_function_default : stub_noncefp; \
     verif_ctx_init(&ctx); ctx.ecmult_gen_ctx.built = built; \
-    verif_nonce_calls = 0; g_nk = 0; \
+    verif_nonce_calls = 0; g_nk = k; \
     kv = be256(seckey); mv = be256(msg32); key_valid = (kv != 0 && kv < n); \
     legal = built != 0 && use_key && use_msg && use_sig
 
 #ifndef UNIT_SIGN_RECOVERABLE   /* two units in this file, selected by -DUNIT_SIGN_RECOVERABLE (INPUT_ARR names are per translation unit) */
 void h_sign(void) {
     COMMON_INPUTS;
-    INPUT(secp256k1_ecdsa_signature, sig);
-    secp256k1_ecdsa_signature sig0 = sig;
+    INPUT(secp256k1_ecdsa_signature, sig); secp256k1_scalar lr, ls;
 
     ret = secp256k1_ecdsa_sign(&ctx, use_sig ? &sig : NULL, use_msg ? msg32 : NULL, use_key ? seckey : NULL, fp, use_ndata ? ndata : NULL);
 
     __CPROVER_assert(ret == 0 || ret == 1, "C01 sign: returns 0 or 1");
     __CPROVER_assert(g_error == 0, "C01 sign: error callback never invoked");
     if (!legal) {
-        __CPROVER_assert(ret == 0 && g_illegal == 1 && verif_nonce_calls == 0, "C01 sign: unbuilt (static) context or NULL argument => one illegal callback, ret 0, no signing");
-        if (k < 64) __CPROVER_assert(sig.data[k] == sig0.data[k], "C01 sign: nothing written on illegal use");
+        __CPROVER_assert(ret == 0 && g_illegal >= 1, "C01 sign: unbuilt (static) context or NULL argument => illegal callback, ret 0");
     } else {
         __CPROVER_assert(g_illegal == 0, "C01 sign: no callback on legal arguments");
         if (!key_valid) __CPROVER_assert(ret == 0, "C01 sign: key 0 or >= n => ret 0");
         if (fp_mode == 2 && g_st_ret == 0) __CPROVER_assert(ret == 0, "C01 sign: nonce callback returning 0 => ret 0");
-        if (ret == 0 && k < 64) __CPROVER_assert(sig.data[k] == 0, "C01 sign: failure => signature object all zero");
+        secp256k1_ecdsa_signature_load(&ctx, &lr, &ls, &sig);
+        if (ret == 0) __CPROVER_assert(sval(&lr) == 0 && sval(&ls) == 0, "C01 sign: failure => all-zero signature (r = s = 0)");
         if (ret == 1) {
             __CPROVER_assert(key_valid && g_ss_ret == 1, "C01 sign: success only with a valid key and a successful core signer");
-            __CPROVER_assert(le256(&sig.data[0]) == sval(&g_ss_r) && le256(&sig.data[32]) == sval(&g_ss_s), "C01 sign: signature object = save(r, s) of the core signer");
+            __CPROVER_assert(SC_EQ(lr, g_ss_r) && SC_EQ(ls, g_ss_s), "C01 sign: signature object holds (r, s) of the core signer");
             __CPROVER_assert(sval(&g_ss_sec) == kv && sval(&g_ss_msg) == (mv >= n ? mv - n : mv), "C01 sign: core signer gets (key, be256(msg) mod n)");
-            __CPROVER_assert(g_nf_msg32 == msg32 && g_nf_key32 == seckey && g_nf_algo16 == NULL && g_nf_data == (use_ndata ? ndata : NULL) && g_nf_counter == verif_nonce_calls - 1,
+            __CPROVER_assert(g_nf_msg_byte == msg32[k] && g_nf_key_byte == seckey[k] && g_nf_algo16 == NULL && (g_nf_data != NULL) == use_ndata && (!use_ndata || g_nf_data_byte == ndata[k]) && g_nf_counter == verif_nonce_calls - 1,
                              "C01 sign: nonce function receives (msg32, seckey, NULL, noncedata, attempt number)");
-            __CPROVER_assert(g_ss_has_recid == 0, "C01 sign: no recovery id requested");
         }
     }
     if (ret == 1 && fp_mode == 0 && mv >= n) REACH("sign success, msg >= n");
@@ -61,31 +60,30 @@ void h_sign(void) {
 #else
 void h_sign_recoverable(void) {
     COMMON_INPUTS;
-    INPUT(secp256k1_ecdsa_recoverable_signature, sig);
-    secp256k1_ecdsa_recoverable_signature sig0 = sig;
+    INPUT(secp256k1_ecdsa_recoverable_signature, sig); secp256k1_scalar lr, ls; int lrec;
 
     ret = secp256k1_ecdsa_sign_recoverable(&ctx, use_sig ? &sig : NULL, use_msg ? msg32 : NULL, use_key ? seckey : NULL, fp, use_ndata ? ndata : NULL);
 
     __CPROVER_assert(ret == 0 || ret == 1, "C01 sign_recoverable: returns 0 or 1");
     __CPROVER_assert(g_error == 0, "C01 sign_recoverable: error callback never invoked");
     if (!legal) {
-        __CPROVER_assert(ret == 0 && g_illegal == 1 && verif_nonce_calls == 0, "C01 sign_recoverable: unbuilt (static) context or NULL argument => one illegal callback, ret 0, no signing");
-        __CPROVER_assert(sig.data[k] == sig0.data[k], "C01 sign_recoverable: nothing written on illegal use");
+        __CPROVER_assert(ret == 0 && g_illegal >= 1, "C01 sign_recoverable: unbuilt (static) context or NULL argument => illegal callback, ret 0");
     } else {
         __CPROVER_assert(g_illegal == 0, "C01 sign_recoverable: no callback on legal arguments");
         if (!key_valid) __CPROVER_assert(ret == 0, "C01 sign_recoverable: key 0 or >= n => ret 0");
         if (fp_mode == 2 && g_st_ret == 0) __CPROVER_assert(ret == 0, "C01 sign_recoverable: nonce callback returning 0 => ret 0");
-        if (ret == 0) __CPROVER_assert(sig.data[k] == 0, "C01 sign_recoverable: failure => all 65 bytes of the signature object zero");
+        secp256k1_ecdsa_recoverable_signature_load(&ctx, &lr, &ls, &lrec, &sig);
+        if (ret == 0) __CPROVER_assert(sval(&lr) == 0 && sval(&ls) == 0 && lrec == 0, "C01 sign_recoverable: failure => all-zero signature (r = s = 0, recid 0)");
         if (ret == 1) {
             __CPROVER_assert(key_valid && g_ss_ret == 1, "C01 sign_recoverable: success only with a valid key and a successful core signer");
-            __CPROVER_assert(le256(&sig.data[0]) == sval(&g_ss_r) && le256(&sig.data[32]) == sval(&g_ss_s), "C01 sign_recoverable: signature object holds (r, s) of the core signer");
-            __CPROVER_assert(g_ss_has_recid == 1 && sig.data[64] == g_ss_recid && sig.data[64] <= 3, "C01 sign_recoverable: byte 64 is the core signer's recovery id, in [0,3]");
+            __CPROVER_assert(SC_EQ(lr, g_ss_r) && SC_EQ(ls, g_ss_s), "C01 sign_recoverable: signature object holds (r, s) of the core signer");
+            __CPROVER_assert(g_ss_has_recid == 1 && lrec == g_ss_recid && lrec >= 0 && lrec <= 3, "C01 sign_recoverable: the object's recid is the core signer's recovery id, in [0,3]");
             __CPROVER_assert(sval(&g_ss_sec) == kv && sval(&g_ss_msg) == (mv >= n ? mv - n : mv), "C01 sign_recoverable: core signer gets (key, be256(msg) mod n)");
-            __CPROVER_assert(g_nf_msg32 == msg32 && g_nf_key32 == seckey && g_nf_algo16 == NULL && g_nf_data == (use_ndata ? ndata : NULL) && g_nf_counter == verif_nonce_calls - 1,
+            __CPROVER_assert(g_nf_msg_byte == msg32[k] && g_nf_key_byte == seckey[k] && g_nf_algo16 == NULL && (g_nf_data != NULL) == use_ndata && (!use_ndata || g_nf_data_byte == ndata[k]) && g_nf_counter == verif_nonce_calls - 1,
                              "C01 sign_recoverable: nonce function receives (msg32, seckey, NULL, noncedata, attempt number)");
         }
     }
-    if (ret == 1 && sig.data[64] == 3) REACH("sign_recoverable success recid 3");
+    if (ret == 1 && legal && lrec == 3) REACH("sign_recoverable success recid 3");
     if (ret == 0 && legal && key_valid && fp_mode == 2) REACH("sign_recoverable callback failure");
     if (legal && kv >= n) REACH("sign_recoverable key >= n");
     if (!built && use_key && use_msg && use_sig) REACH("sign_recoverable on static context");
